@@ -27,6 +27,7 @@ type Val struct {
 	Loc                *Loc // for pointer values: what the pointer designates, when statically known
 	Wide               bool // spec-only 128-bit value (bv mode)
 	Lit                *big.Int // untyped integer literal (spec only)
+	Prov               string   // provenance: SMT Int term naming the call that produced this value ("" = none)
 }
 
 type pathElem struct {
@@ -430,6 +431,16 @@ func (c *Ctx) iteVal(cond string, a, b *Val) *Val {
 	switch a.K {
 	case VScalar:
 		v := &Val{K: VScalar, T: a.T, S: sIte(cond, a.S, b.S), Wide: a.Wide}
+		if a.Prov != "" || b.Prov != "" {
+			pa, pb := a.Prov, b.Prov
+			if pa == "" {
+				pa = "0"
+			}
+			if pb == "" {
+				pb = "0"
+			}
+			v.Prov = sIte(cond, pa, pb)
+		}
 		if a.Loc != nil && b.Loc != nil && sameLoc(a.Loc, b.Loc) {
 			v.Loc = a.Loc
 		}
